@@ -12,6 +12,9 @@ import Proofs.FsIndex
 namespace Props.C19
 open ZodbModel ZodbModel.FsIndex
 
+/-- a two-prefix example index (used by the non-vacuity examples) -/
+def exIx0 : Idx := [(2, [(1, 10)]), (3, [(7, 20)])]
+
 /-- The empty index satisfies the invariant, and has no keys. -/
 theorem inv_empty : Inv ([] : Idx) ∧ ∀ k, get [] k = none := Proofs.FsIndex.inv_empty
 
@@ -31,6 +34,18 @@ theorem del_refines (ix : Idx) (k : Nat) (h : Inv ix) :
     (get ix k ≠ none → ∃ ix', del ix k = .ok ix' ∧ Inv ix' ∧
       ∀ k', get ix' k' = if k' = k then none else get ix k') :=
   Proofs.FsIndex.del_refines ix k h
+
+/-- `update(mapping)` / `fsIndex(mapping)`: succeeds for in-range items, keeps the invariant, and
+    afterwards every key holds the last value given for it in `kvs`, else what it held before —
+    exactly `dict.update`. -/
+theorem update_refines (ix : Idx) (kvs : List (Nat × Nat)) (h : Inv ix)
+    (hw : ∀ kv ∈ kvs, kv.1 < 2 ^ 64 ∧ kv.2 < 2 ^ 48) :
+    ∃ ix', update ix kvs = .ok ix' ∧ Inv ix' ∧ ∀ k, get ix' k = updSpec (get ix k) k kvs :=
+  Proofs.FsIndex.update_refines kvs ix h hw
+
+example : (match update exIx0 [(0x20001, 5), (0x20002, 6), (0x20001, 7)] with
+           | .ok ix => (get ix 0x20001, get ix 0x20002, get ix 0x30007) | .error _ => (none, none, none))
+          = (some 7, some 6, some 20) := by decide
 
 /-- clear -/
 theorem clear_refines (ix : Idx) : Inv (clear ix) ∧ ∀ k, get (clear ix) k = none :=
